@@ -12,11 +12,30 @@
 #include <sstream>
 #include <string>
 #include <vector>
+#include <limits>
 #include <map>
 #include <tapkee/utils/fibonacci_heap.hpp>
 
 using namespace tapkee;
 using namespace tapkee::tapkee_internal;
+
+// Keys cross the boundary as integers.  Two reserved integers stand for the extreme doubles so that
+// histories can use them (order is preserved: every other key is far below 4e18):
+//   KEY_DBLMAX <-> std::numeric_limits<double>::max(),  KEY_INF <-> +infinity
+static const long long KEY_DBLMAX = 4000000000000000000LL;
+static const long long KEY_INF = 4000000000000000001LL;
+static inline ScalarType tokey(long long k)
+{
+    if (k == KEY_DBLMAX) return std::numeric_limits<ScalarType>::max();
+    if (k == KEY_INF) return std::numeric_limits<ScalarType>::infinity();
+    return (ScalarType)k;
+}
+static inline long long fromkey(ScalarType key)
+{
+    if (key == std::numeric_limits<ScalarType>::infinity()) return KEY_INF;
+    if (key == std::numeric_limits<ScalarType>::max()) return KEY_DBLMAX;
+    return (long long)key;
+}
 
 struct probe_heap : public fibonacci_heap
 {
@@ -35,7 +54,7 @@ struct probe_heap : public fibonacci_heap
         count++;
         if (t->parent != parent) { os << "<badparent>"; return false; }
         if (t->index != id(t)) { os << "<badindex>"; return false; }
-        os << "(" << t->index << " " << (long long)t->key << " " << (t->marked ? 1 : 0);
+        os << "(" << t->index << " " << fromkey(t->key) << " " << (t->marked ? 1 : 0);
         int nchild = 0;
         if (t->child != NULL)
         {
@@ -186,15 +205,15 @@ int main()
             continue;
         }
         if (h == NULL) continue;
-        if (cmd == "i") { long long i, k; is >> i >> k; h->insert((int)i, (ScalarType)k); }
-        else if (cmd == "d") { long long i, k; is >> i >> k; ScalarType key = (ScalarType)k; h->decrease_key((int)i, key); }
+        if (cmd == "i") { long long i, k; is >> i >> k; h->insert((int)i, tokey(k)); }
+        else if (cmd == "d") { long long i, k; is >> i >> k; ScalarType key = tokey(k); h->decrease_key((int)i, key); }
         else if (cmd == "c") { h->clear(); }
         else if (cmd == "x")
         {
             ScalarType key = -12345;
             int r = h->extract_min(key);
             if (r == -1) ext = "N";
-            else { std::ostringstream os; os << r << ":" << (long long)key; ext = os.str(); }
+            else { std::ostringstream os; os << r << ":" << fromkey(key); ext = os.str(); }
         }
         else continue;
         printf("O %s %d %d", ext.c_str(), h->get_num_nodes(), h->empty() ? 1 : 0);
